@@ -53,14 +53,14 @@ class C06(Machine):
                 # this client builds its object only now (after others may have produced keystream)
                 pb.step(c, k="make", slot=o, obj=o, name="make", tag="make")
             for _ in range(rng.randint(2, 6)):
-                n = rng.choice(PLENS)
+                n = rng.choice(PLENS) if rng.random() < 0.93 else rng.choice([1024, 1500, 2300])
                 r = rng.random()
                 if only_enc or r < 0.55:
                     pb.step(c, k="call", obj=o, name="enc", args=[B(rbytes(rng, n))], kw={}, tag="enc:" + _lc(n))
                 elif r < 0.75:
                     pb.step(c, k="call", obj=o, name="dec", args=[B(rbytes(rng, n))], kw={}, tag="dec:" + _lc(n))
                 else:
-                    pb.step(c, k="call", obj=o, name="keystream", args=[min(n, 300)], kw={}, tag="ks:" + _lc(n))
+                    pb.step(c, k="call", obj=o, name="keystream", args=[n], kw={}, tag="ks:" + _lc(n))
             if rng.random() < 0.5 and nobj > 1:
                 # noise on a sibling object in the middle of somebody's stream
                 so = objs[-1]
